@@ -84,8 +84,10 @@ def collect_links(root, types):
 def run_config(case, entry: str, override=None, hash_seed=None):
     """Materialise and read. Returns projection dict."""
     import pydsdl
+    from pydsdl import _verif_trace
     with dsdlio.Tree(files_of(case, override), "rd") as tr:
         root = str(tr.root)
+        _verif_trace.drain()
         prints = []
         def ph(path, line, text):
             prints.append((path_to_id(root, path), line, text.strip()))
@@ -104,14 +106,74 @@ def run_config(case, entry: str, override=None, hash_seed=None):
                 raise
             info = dsdlio.err_info(ex)
             return {"ok": False, "ide": info["ide"], "cls": info["cls"], "path": path_to_id(root, info["path"]),
-                    "line": info["line"] or 0, "prints": prints, "text": info["text"][:200]}
+                    "line": info["line"] or 0, "prints": prints, "text": info["text"][:200],
+                    "events": project_events(root, _verif_trace.drain())}
         out = {"ok": True, "direct": [comp_id(root, t) for t in direct],
                "transitive": None if transitive is None else [comp_id(root, t) for t in transitive],
-               "links": collect_links(root, list(direct) + list(transitive or [])), "prints": prints}
+               "links": collect_links(root, list(direct) + list(transitive or [])), "prints": prints,
+               "events": project_events(root, _verif_trace.drain())}
         # structural sanity of what was returned
         out["names_ok"] = all(t.full_name == "%s.%s" % (NS[comp_id(root, t)[0]], comp_id(root, t)[1])
                               and (t.version.major, t.version.minor) == comp_id(root, t)[2:] for t in direct)
         return out
+
+def project_events(root, events):
+    """Hook events -> the abstract steps of Reader.tla's log (plus text loads and classifications)."""
+    out = []
+    for e in events:
+        ev = e["ev"]
+        if ev == "read_begin":
+            out.append(("begin", path_to_id(root, e["file"])))
+        elif ev == "read_end":
+            out.append(("end", path_to_id(root, e["file"]), bool(e["ok"])))
+        elif ev == "resolve":
+            out.append(("resolve", path_to_id(root, e["src"]), frozenset(path_to_id(root, f) for f in e["found"])))
+        elif ev == "print":
+            out.append(("print", path_to_id(root, e["file"]), e["line"]))
+        elif ev == "text_load":
+            out.append(("text_load", path_to_id(root, e["file"])))
+        elif ev == "classify":
+            out.append(("classify", path_to_id(root, e["file"]), e["level"], e["action"]))
+        elif ev == "check_scope":
+            out.append(("check_scope", frozenset(path_to_id(root, f) for f in e["port"]), frozenset(path_to_id(root, f) for f in e["version"])))
+    return out
+
+def expected_log(out):
+    log = []
+    for e in out["log"]:
+        k = e["e"]
+        if k == "begin":
+            log.append(("begin", idkey(e["id"])))
+        elif k == "end":
+            log.append(("end", idkey(e["id"]), bool(e["ok"])))
+        elif k == "resolve":
+            log.append(("resolve", idkey(e["id"]), frozenset(idkey(x) for x in e["found"])))
+        elif k == "print":
+            log.append(("print", idkey(e["id"]), e["line"]))
+    return log
+
+def compare_events(exp_log, closure, targets, got_events, ok):
+    """Binding B: the recorded execution is the behaviour the specification prescribes, step by step."""
+    diff = []
+    steps = [e for e in got_events if e[0] in ("begin", "end", "resolve", "print")]
+    if steps != exp_log:
+        n = next((i for i, (a, b) in enumerate(zip(steps, exp_log)) if a != b), min(len(steps), len(exp_log)))
+        diff.append(("recorded steps diverge from the specification at step %d" % (n + 1),
+                     [list(map(str, x)) for x in steps[n:n + 2]], [list(map(str, x)) for x in exp_log[n:n + 2]]))
+    loads = [e[1] for e in got_events if e[0] == "text_load"]
+    outside = [x for x in loads if x not in closure]
+    if outside:
+        diff.append(("text of a definition outside the dependency closure was loaded", outside))
+    if len(set(loads)) != len(loads):
+        diff.append(("a definition's text was loaded more than once", loads))
+    begun = [e[1] for e in steps if e[0] == "begin"]
+    if sorted(map(str, loads)) != sorted(map(str, begun)):
+        diff.append(("text loads do not match the definitions parsed", loads, begun))
+    if ok:
+        scope = [e for e in got_events if e[0] == "check_scope"]
+        if len(scope) != 1 or scope[0][1] != frozenset(targets) or scope[0][2] != frozenset(closure):
+            diff.append(("scope of the cross-definition checks", [list(map(sorted, map(list, s[1:]))) for s in scope], sorted(targets), sorted(closure)))
+    return diff
 
 def expected(out):
     if not out["ok"]:
@@ -174,6 +236,8 @@ def worker(arg):
     tset = {idkey(d) for d in case["defs"] if d["dir"] == 1} if entry == "namespace" else {idkey(t) for t in case["targets"]}
     got = run_config(case, entry)
     diffs = compare(exp, got, entry, tset)
+    for d in compare_events(expected_log(out), {idkey(i) for i in out["closure"]}, tset, got.get("events", []), bool(out["ok"])):
+        diffs.append(("trace", d))
     bad = []
     for d in diffs:
         rec = {"kind": d[0], "case": tlaval.to_json(st["case"]), "entry": entry, "diff": [d[1]],
@@ -204,6 +268,7 @@ def worker(arg):
 def _strip(g):
     g = dict(g)
     g.pop("text", None)
+    g["events"] = [e for e in g.get("events", []) if e[0] != "check_scope"]
     if "links" in g:
         g["links"] = sorted(g["links"])
     return g
